@@ -44,6 +44,9 @@ const VALUE: &[u8] = b"C16-RECORD-VALUE-MARKER";
 const KAD_PROTOCOL: &str = "/ipfs/kad/1.0.0";
 const REPLICATION: usize = 3;
 const TICKS: u32 = 40;
+/// 40 x 3 s = 120 s after quiescence: several times the longest timeout of the Kademlia code paths involved, so that a
+/// retuning of those timeouts does not turn into "no terminal event"
+const TICK_SECS: u64 = 3;
 
 #[derive(Clone, Copy, Debug, Serialize, Deserialize, PartialEq, Eq, PartialOrd, Ord)]
 pub enum OpKind {
@@ -403,7 +406,7 @@ impl Scenario for KadScenario {
     }
 
     fn setup(&self, w: &mut World) -> St {
-        let keep_alive = Duration::from_secs(60);
+        let keep_alive = Duration::from_secs(3600);
         let kad = || KadConfigBuilder::new().with_replication_factor(REPLICATION).build();
         // node 0 = L
         let (cfg_l, handle_l) = kad();
@@ -541,7 +544,7 @@ impl Scenario for KadScenario {
     }
 
     fn time(&self) -> (u32, Duration) {
-        (TICKS, Duration::from_secs(1))
+        (TICKS, Duration::from_secs(TICK_SECS))
     }
 
     fn finish(&self, st: &mut St, w: &mut World, quiescent: bool) -> Vec<Viol> {
@@ -594,7 +597,7 @@ impl Scenario for KadScenario {
             match terminals.len() {
                 0 => v.push(Viol::new(
                     format!("kad/no-terminal-event/{op}/{summary}"),
-                    format!("query {qid} ({op}) produced no terminal event although {TICKS} s of virtual time elapsed after quiescence (all substream/read/write timeouts are shorter): {ctx}"),
+                    format!("query {qid} ({op}) produced no terminal event although {} s of virtual time elapsed after quiescence (all substream/read/write timeouts are shorter): {ctx}", TICKS as u64 * TICK_SECS),
                 )),
                 1 => {}
                 n => v.push(Viol::new(format!("kad/two-terminal-events/{op}"), format!("query {qid} ({op}) produced {n} terminal events {terminals:?}: {ctx}"))),
@@ -907,7 +910,7 @@ pub fn run(ctx: &mut Ctx) {
     ctx.assume("SimNet's connection task mirrors transport/tcp/connection.rs over real yamux + multistream-select + ProtocolSet; Noise/TCP below yamux is replaced by an in-memory pipe (DESIGN §2.3)");
     ctx.assume("interleaving granularity is one poll of one task; tokio::select! branch order inside a poll is fixed by the runtime seed");
     ctx.assume("Kademlia uses tokio timers only (executor READ/WRITE_TIMEOUT 15 s, store refresh sleep 22 h): all are driven by the virtual clock; no futures_timer timer is involved. FindNodeContext's 10 s peer_timeout reads std::time::Instant (offset clock, not advanced here): it only changes how many requests run in parallel and cannot matter with 3 peers and parallelism 3");
-    ctx.assume("keep-alive timeout 60 s > 40 s of ticks: an idle connection is never closed by the keep-alive timer inside an execution, so a query that would only be ended by the connection being closed for idleness is reported as not terminating (another protocol may hold a connection open indefinitely)");
+    ctx.assume("keep-alive timeout 3600 s > 120 s of ticks: an idle connection is never closed by the keep-alive timer inside an execution, so a query that would only be ended by the connection being closed for idleness is reported as not terminating (another protocol may hold a connection open indefinitely)");
     ctx.assume("'was sent the data' is decided on the wire: the record value (PUT_VALUE) or the provider's peer id (ADD_PROVIDER) appears in the bytes L wrote to the link towards that remote; Quorum::All of the lookup based operations is checked as 'at least one' because the set of peers the lookup selected is not observable");
     ctx.assume("silent peer = a node that negotiates /ipfs/kad/1.0.0 and reads requests but never answers (request-response protocol registered under the Kademlia name, user never responds)");
 }
